@@ -16,6 +16,7 @@ EXPLANATION = (
     "C10.F2 (sibling agreement): both parsers assign the same set of SDJWTCommon fields (a field written by only one parser must never be read by verifier code or outside a format-exclusive block), "
     "derive sign_alg by the same callee from the same string that is stored as unverified_sd_jwt, and the JSON parser rebuilds that string from protected, payload, signature in this order. "
     "C10.F3: the holder's format-specific assembly must not consume (read-modify-write) constructor state."
+    " C10.F2 also: the disclosure list is exactly parts[1..len-1] and the KB-JWT exactly the last part of input.split('~') (position algebra over iterator / index / slice-pattern forms); an Option field that one parser always fills with Some while the other may leave None, assumed None (A6 over the field) with every optional constructor check requested, reaches no Ok exit of SDJWTVerifier::new."
 )
 ASSUMPTIONS = [
     "value-level equivalence of the two parsers on every input string is not decided; only that they fill the same state and that nothing after parsing can observe the format",
